@@ -154,7 +154,7 @@ def monStep (ga : Nat → Int) (m : Mon) : Ev → MR
     | some bt =>
       if rc ≠ 0 then .error s!"getaddrinfo_a returned {rc}"
       else snapMon (m.setB { bt with returned := true }) b snap true
-  | .gacall x b k h =>
+  | .gacall x b k h _ =>
     let m := settle m x
     match m.getB b, m.getI b k with
     | some bt, some it =>
@@ -173,16 +173,17 @@ def monStep (ga : Nat → Int) (m : Mon) : Ev → MR
     let m ← notifMon m b .thread
     if !allD snap then .error s!"the callback of batch {b} does not see all results as final"
     else snapMon m b snap false
-  | .kill x target slot => do
+  | .kill x target _ bid => do
     let m := settle m x
-    notifMon m (target * 100 + (slot - 1)) .signal
+    if bid / bidMul ≠ target then .error s!"a signal is sent to thread {target} that no batch of that thread asked for"
+    else notifMon m bid .signal
   | .sigrecv i b snap =>
     match m.getB b with
     | none => .error s!"signal received for an unknown batch {b}"
     | some bt =>
       if bt.notifs ≠ 1 then .error s!"signal for batch {b} received although none was sent for it"
       else if bt.recvs ≠ 0 then .error s!"signal for batch {b} received twice"
-      else if b / 100 ≠ i then .error s!"signal for batch {b} delivered to another thread than the submitter"
+      else if b / bidMul ≠ i then .error s!"signal for batch {b} delivered to another thread than the submitter"
       else if !allD snap then .error s!"the signal handler of batch {b} does not see all results as final"
       else snapMon (m.setB { bt with recvs := 1 }) b snap false
   | .free => .ok (settle m .w)
